@@ -51,12 +51,12 @@ impl Property for C09 {
         "C09"
     }
     fn rule(&self) -> String {
-        "Generated: clean tagged token streams (whole vocabulary words of every class, speller phrases, ordinals next to cardinals, linking words, ordinary words, conjunction/separator words, period vs comma and other punctuation, numbers at both ends) with two thresholds drawn from a pool {0, 10, 3, 100, +inf, NaN, -1, -inf, 7, 1, 2, 1e300, subnormal, 0.5} or set to the exact value of one of the text's numbers +-1. Oracle: (a) occ(t) is a sub-list of occ(0) (same span, text, value, flag); (b) t1 <= t2 => occ(t2) sub-list of occ(t1); (c) t <= 0 or NaN => occ(t) == occ(0); (d) every number of occ(0) that is not small at t (small = one-character text or ordinal, value < t) is in occ(t); (e) reference policy model: a small number is rewritten iff the recognised number directly before or after it is of the same kind (cardinal/ordinal) and the tokens between them are only whitespace, bare hyphens, non-alphabetic tokens other than a lone period, or words of the language's linking vocabulary; an ordinary word or a lone period breaks; the model abstains (counted) when the gap contains a conjunction/separator word or a number-like word outside every occurrence; (f) fixed relations: three single digits in a row (comma- or space-separated) are all rewritten at every threshold; 'w d w' with a single digit d: untouched iff d < t. Non-trivial = distinct streams with a small number whose fate is decided by a neighbour (released by a neighbour / dropped by a breaker / dropped by a kind change), or value == threshold.".into()
+        "Generated: clean tagged token streams (whole vocabulary words of every class, speller phrases, ordinals next to cardinals, linking words, ordinary words, conjunction/separator words, period vs comma and other punctuation, numbers at both ends) with two thresholds drawn from a pool {0, 10, 3, 100, +inf, NaN, -1, -inf, 7, 1, 2, 1e300, subnormal, 0.5} or set to the exact value of one of the text's numbers +-1. Oracle: (a) occ(t) is a sub-list of occ(0) (same span, text, value, flag); (b) t1 <= t2 => occ(t2) sub-list of occ(t1); (c) t <= 0 or NaN => occ(t) == occ(0); (d) every number of occ(0) that is not small at t (small = one-character text or ordinal, value < t) is in occ(t); (e) reference policy model: a small number is rewritten iff the recognised number directly before or after it is of the same kind (cardinal/ordinal) and the tokens between them are only whitespace, bare hyphens, non-alphabetic tokens other than a lone period, or words of the language's linking vocabulary; an ordinary word or a lone period breaks; the conjunction word counts as a linking word; the model abstains (counted) when the gap contains the decimal-separator word or a number-like word outside every occurrence; (f) fixed relations: three single digits in a row (comma- or space-separated) are all rewritten at every threshold; 'w d w' with a single digit d: untouched iff d < t. Non-trivial = distinct streams with a small number whose fate is decided by a neighbour (released by a neighbour / dropped by a breaker / dropped by a kind change), or value == threshold.".into()
     }
     fn assumptions(&self) -> Vec<String> {
         vec![
             "a word is a linking word iff the language's published vocabulary says so (is_linking on the lowercase form); the generator draws linking words from a copy of those lists".into(),
-            "gaps containing a conjunction or decimal-separator word, or a number-like word that is in no occurrence, are not decided by the statement: the model abstains there".into(),
+            "gaps containing the decimal-separator word, or a number-like word that is in no occurrence, are not decided by the statement: the model abstains there; the conjunction word is treated as a linking word in every language".into(),
         ]
     }
     fn strategy(&self, _tier: Tier) -> BoxedStrategy<Case> {
@@ -166,7 +166,14 @@ impl Property for C09 {
                     }
                     continue;
                 }
-                if lo == v.sep || lo == v.conj {
+                // the conjunction word between two numbers links them (it is the linking word par excellence;
+                // in the languages where it is not in the published linking list the scanner skips it as a
+                // potential part of the number); the decimal-separator word stays undecided (it is skipped
+                // after a number but is an ordinary word elsewhere)
+                if v.conj_alts.contains(&lo) {
+                    continue;
+                }
+                if lo == v.sep {
                     und = true;
                     continue;
                 }
